@@ -45,6 +45,14 @@ KERNELS = [
     "extract_utf16", "utf16_measure", "write_utf16",
     "cl_fast_lower", "cl_fast_upper",
     "b64_encode_size",
+    # the two-pass conversion loops (measure, then fill) of include/st_utf_conv_priv.h
+    "utf8_measure_from_utf16", "utf8_convert_from_utf16", "utf8_measure_from_utf32", "utf8_convert_from_utf32",
+    "utf16_measure_from_utf8", "utf16_convert_from_utf8", "utf16_measure_from_utf32", "utf16_convert_from_utf32",
+    "utf32_measure_from_utf8", "utf32_convert_from_utf8", "utf32_measure_from_utf16", "utf32_convert_from_utf16",
+    "utf8_measure_from_latin_1", "utf8_convert_from_latin_1", "utf16_convert_from_latin_1", "utf32_convert_from_latin_1",
+    "latin_1_measure_from_utf8", "latin_1_convert_from_utf8", "latin_1_measure_from_utf16", "latin_1_convert_from_utf16",
+    "latin_1_convert_from_utf32",
+    "validate_utf8",
 ]
 
 class Unsupported(Exception):
@@ -65,13 +73,15 @@ def dump_ast():
         with open(tu, "w") as f:
             f.write('#include "st_string.h"\n#include "st_utf_conv.h"\n#include "st_codecs.h"\n'
                     '#include "st_format.h"\n#include "st_stringstream.h"\n')
-        r = subprocess.run([CLANG, "-std=gnu++20", "-fsyntax-only", "-I", os.path.join(tmp, "cfg"),
-                            "-I", os.path.join(REPO, "include"), "-Xclang", "-ast-dump=json",
-                            "-Xclang", "-ast-dump-filter=_ST_PRIVATE::", tu],
-                           stdout=subprocess.PIPE, stderr=subprocess.PIPE, text=True)
-        if r.returncode != 0 or not r.stdout.strip():
-            raise Unsupported("clang failed: " + r.stderr[-400:])
-        s = r.stdout
+        s = ""
+        for flt in ("_ST_PRIVATE::", "utf_validation_t", "ST::assume_valid", "ST::substitute_invalid", "ST::check_validity"):
+            r = subprocess.run([CLANG, "-std=gnu++20", "-fsyntax-only", "-I", os.path.join(tmp, "cfg"),
+                                "-I", os.path.join(REPO, "include"), "-Xclang", "-ast-dump=json",
+                                "-Xclang", "-ast-dump-filter=" + flt, tu],
+                               stdout=subprocess.PIPE, stderr=subprocess.PIPE, text=True)
+            if r.returncode != 0 or not r.stdout.strip():
+                raise Unsupported("clang failed: " + r.stderr[-400:])
+            s += r.stdout + "\n"
     finally:
         shutil.rmtree(tmp, ignore_errors=True)
     dec = json.JSONDecoder(); i = 0; objs = []
@@ -101,6 +111,29 @@ INT_TYPES = {  # C++ type -> (signed, bits)   (x86-64 Linux, LP64; char is signe
     "long": (True, 64), "unsigned long": (False, 64), "long long": (True, 64), "unsigned long long": (False, 64),
     "size_t": (False, 64), "ST_ssize_t": (True, 64), "std::size_t": (False, 64),
 }
+def c_string_bytes(lit):
+    """bytes of a C string literal as clang prints it (with the terminating NUL)"""
+    body = lit[lit.index('"') + 1: lit.rindex('"')]
+    out = []; i = 0
+    while i < len(body):
+        c = body[i]
+        if c != "\\":
+            out += list(c.encode("utf-8")); i += 1; continue
+        i += 1; c = body[i]
+        if c in "01234567":
+            j = i
+            while j < len(body) and j < i + 3 and body[j] in "01234567":
+                j += 1
+            out.append(int(body[i:j], 8)); i = j
+        elif c == "x":
+            j = i + 1
+            while j < len(body) and body[j] in "0123456789abcdefABCDEF":
+                j += 1
+            out.append(int(body[i + 1:j], 16)); i = j
+        else:
+            out.append({"n": 10, "t": 9, "r": 13, "0": 0, "\\": 92, '"': 34, "'": 39, "a": 7, "b": 8, "f": 12, "v": 11}[c]); i += 1
+    return out + [0]
+
 def strip_cv(t):
     t = re.sub(r"\b(const|volatile)\b", "", t)
     return re.sub(r"\s+", " ", t).strip()
@@ -139,6 +172,7 @@ class Val:
         self.isint = (lo < 0) if isint is None else isint
         self.atom = atom
         self.boolean = boolean     # text is a decidable Prop
+        self.raw8 = None           # for a value read through `const char *`: the name of the unsigned byte it came from
     def p(self):
         return self.text if self.atom else "(" + self.text + ")"
 
@@ -192,8 +226,9 @@ class Env:
         self.vars = {}         # c name -> dict(name=lean name, lo=, hi=, isint=, kind='int'|'src'|'out')
         self.out = None        # lean name of the list written so far (or None)
         self.outbits = None
+        self.pending = None    # units copied to the output position by char_traits::copy, not yet stepped over
     def copy(self):
-        e = Env(); e.vars = {k: dict(v) for k, v in self.vars.items()}; e.out = self.out; e.outbits = self.outbits
+        e = Env(); e.vars = {k: dict(v) for k, v in self.vars.items()}; e.out = self.out; e.outbits = self.outbits; e.pending = self.pending
         return e
 
 class Translator:
@@ -216,6 +251,10 @@ class Translator:
                 self.fdecls.setdefault(o["name"], []).append(o)
         self.sigs = {}         # translated functions: name -> signature description
         # namespace-scope constants of integer type: evaluated here (their initialisers are constant expressions)
+        self.arrays = {}
+        for o in objs:
+            if o["kind"] == "VarDecl" and o.get("name") and inner(o) and inner(o)[0]["kind"] == "StringLiteral":
+                self.arrays[o["name"]] = c_string_bytes(inner(o)[0]["value"])
         self.consts = {}
         for o in objs:
             if o["kind"] == "VarDecl" and o.get("name") and int_type(qt(o), self.enums) and inner(o):
@@ -244,16 +283,30 @@ class Translator:
                 en = qt(n).split("::")[-1]
                 return [], lit(self.enums[en][ref["name"]]), env
             raise Unsupported("lvalue used as a value without a load: " + ref.get("name", "?"))
-        if k == "ImplicitCastExpr" or k in ("CStyleCastExpr", "CXXStaticCastExpr", "CXXFunctionalCastExpr"):
+        if k == "ImplicitCastExpr" or k in ("CStyleCastExpr", "CXXStaticCastExpr", "CXXFunctionalCastExpr", "CXXReinterpretCastExpr"):
             ck = n.get("castKind")
             sub = inner(n)[0]
             if ck == "LValueToRValue":
                 return self.load(fn, sub, env)
-            if ck == "NoOp":
+            if ck in ("NoOp", "BitCast") :
                 return self.expr(fn, sub, env)
+            if ck == "PointerToBoolean":
+                x = sub
+                while x["kind"] in ("ImplicitCastExpr", "ParenExpr"):
+                    x = inner(x)[0]
+                if x["kind"] == "DeclRefExpr":
+                    var = env.vars.get(x["referencedDecl"]["name"], {})
+                    if var.get("nullflag"):
+                        return [], Val("%s = false" % var["nullflag"], 0, 1, boolean=True), env
+                raise Unsupported("pointer used as a truth value")
             if ck == "IntegralCast":
                 lines, v, env = self.expr(fn, sub, env)
-                return lines, self.convert(v, qt(n)), env
+                if v.raw8 and int_type(qt(n), self.enums) == (False, 8):
+                    return lines, Val(v.raw8, 0, 255, atom=True), env
+                r = self.convert(v, qt(n))
+                if v.raw8 and r.lo == v.lo and r.hi == v.hi:
+                    r.raw8 = v.raw8
+                return lines, r, env
             if ck == "IntegralToBoolean":
                 lines, v, env = self.expr(fn, sub, env)
                 z = "(0 : Int)" if v.isint else "0"
@@ -387,9 +440,12 @@ class Translator:
                 return lines, Val("%s / %s" % (av.p(), bv.p()), av.lo // bv.hi, av.hi // bv.lo), env
             return lines, Val("%s %% %s" % (av.p(), bv.p()), 0, min(av.hi, bv.hi - 1)), env
         if op in ("&", "|", "^"):
-            if av.lo < 0 or bv.lo < 0:
+            if (av.lo < 0 and not (op == "&" and av.raw8)) or bv.lo < 0:
                 raise Unsupported("bit operator on a possibly negative value")
             sym = {"&": "&&&", "|": "|||", "^": "^^^"}[op]
+            if op == "&" and av.raw8 and 0 <= bv.lo == bv.hi <= 255:
+                # a `char` promoted to int, masked with a byte-sized constant: the low eight bits are the byte itself
+                return lines, Val("%s &&& %s" % (av.raw8, to_nat(bv).p()), 0, bv.hi), env
             av, bv = to_nat(av), to_nat(bv)
             if op == "&":
                 hi = min(av.hi, bv.hi)
@@ -456,10 +512,14 @@ class Translator:
 
     def read(self, fn, lines, idx, elem_t, env):
         s, b = int_type(elem_t, self.enums)
-        if s:
-            raise Unsupported("read through a pointer to a signed type")
         t = fn.fresh("t")
         lines = lines + ["let %s ← rd%d mem %s" % (t, b, idx.p())]
+        if s:
+            if b != 8:
+                raise Unsupported("read through a pointer to a signed type wider than char")
+            v = Val("toChar %s" % t, -128, 127, isint=True)
+            v.raw8 = t
+            return lines, v, env
         return lines, Val(t, 0, (1 << b) - 1, atom=True), env
 
     # ---- a postfix/prefix increment used as an expression (value of a pointer / integer variable)
@@ -485,7 +545,10 @@ class Translator:
         if v["kind"] == "int":
             r = self.var_range(v)
             if not (r[0] <= nv["lo"] and nv["hi"] <= r[1]):
-                raise Unsupported("++/-- may leave the type's range: " + name)
+                if v["isint"] or d != 1:
+                    raise Unsupported("++/-- may leave the type's range: " + name)
+                line = "let %s := (%s + 1) %% %d" % (new, v["name"], r[1] + 1)      # unsigned wrap-around
+                nv["lo"], nv["hi"] = r
         env.vars[name] = nv
         newv = Val(new, nv["lo"], nv["hi"], isint=v["isint"], atom=True)
         return [line], (old if n.get("isPostfix") else newv), env
@@ -521,9 +584,16 @@ class Translator:
         lines = []; texts = []; inout = []
         if sig["mem"]:
             texts.append("mem")
+        if sig.get("fuel"):
+            texts.append("fuel"); fn.needs_fuel = True
         for a, p in zip(args, sig["params"]):
             if p["kind"] == "out":
-                raise Unsupported("call passing the output pointer")
+                x = a
+                while x["kind"] in ("ImplicitCastExpr", "ParenExpr"):
+                    x = inner(x)[0]
+                if not (p.get("ref") and x["kind"] == "DeclRefExpr" and env.vars.get(x["referencedDecl"]["name"], {}).get("kind") == "out"):
+                    raise Unsupported("call passing the output pointer other than by reference")
+                continue
             if p["kind"] == "srcref":
                 if a["kind"] != "DeclRefExpr":
                     raise Unsupported("reference argument is not a variable")
@@ -534,6 +604,14 @@ class Translator:
             lines += l
             v = to_int(v) if p["isint"] else to_nat(v)
             texts.append(v.p())
+            if p.get("nullflag"):
+                x = a
+                while x["kind"] in ("ImplicitCastExpr", "ParenExpr"):
+                    x = inner(x)[0]
+                flag = env.vars.get(x.get("referencedDecl", {}).get("name"), {}).get("nullflag") if x["kind"] == "DeclRefExpr" else None
+                if not flag:
+                    raise Unsupported("a pointer that the callee tests for null is not a parameter of the caller")
+                texts.append(flag)
         r = fn.fresh("r")
         names = []
         if sig["ret"] is not None:
@@ -542,10 +620,17 @@ class Translator:
         for vn in inout:
             nn = fn.fresh(vn); names.append(nn)
             nv = dict(env.vars[vn]); nv["name"] = nn; nv["hi"] = nv["hi"] + sig.get("advance", 4); env.vars[vn] = nv
+        us = None
         if sig["out"]:
-            raise Unsupported("call of a function with an output stream")
+            us = fn.fresh("us"); names.append(us)
         pat = names[0] if len(names) == 1 else "(" + ", ".join(names) + ")"
-        lines.append("let %s ← %s %s" % (pat, "Gen." + name if False else name, " ".join(texts)))
+        lines.append("let %s ← %s %s" % (pat, name, " ".join(texts)))
+        if us:
+            if env.pending is not None:
+                raise Unsupported("output written while a block copy is pending")
+            no = fn.fresh("out")
+            lines.append("let %s := %s ++ %s" % (no, env.out, us))
+            env.out = no
         if sig["ret"] is None:
             return lines, None, env
         lo, hi, isint = sig["ret"]
@@ -575,6 +660,8 @@ class Translator:
                 lines += [pad + x for x in l]
             return lines + k(env, ind)
         if kind == "ReturnStmt":
+            if env.pending is not None:
+                raise Unsupported("return while a block copy is pending")
             sub = inner(s)
             if sub:
                 l, v, env = self.expr(fn, sub[0], env)
@@ -589,8 +676,32 @@ class Translator:
             then_k = lambda e, i: self.stmt(fn, th, e, k, i)
             else_k = (lambda e, i: self.stmt(fn, el, e, k, i)) if el is not None else k
             return self.cond_tree(fn, c, env, then_k, else_k, ind)
-        if kind in ("WhileStmt", "ForStmt", "DoStmt"):
+        if kind == "DoStmt":
+            body, c = inner(s)
+            x = c
+            while x["kind"] in ("ImplicitCastExpr", "ParenExpr"):
+                x = inner(x)[0]
+            if (x["kind"] == "IntegerLiteral" and int(x["value"]) == 0) or (x["kind"] == "CXXBoolLiteralExpr" and not x["value"]):
+                if has_kind(body, ("BreakStmt", "ContinueStmt")):
+                    raise Unsupported("break/continue inside do { } while (0)")
+                return self.stmt(fn, body, env, k, ind)       # runs exactly once
+            raise Unsupported("do-while loop")
+        if kind in ("WhileStmt", "ForStmt"):
             return self.loop(fn, s, env, k, ind)
+        if kind == "ContinueStmt":
+            if not fn.loopctx:
+                raise Unsupported("continue outside a loop")
+            return fn.loopctx[-1][0](env, ind)
+        if kind == "BreakStmt":
+            if not fn.loopctx:
+                raise Unsupported("break outside a loop")
+            return fn.loopctx[-1][1](env, ind)
+        if kind == "CallExpr" and callee_name(s) == "assert_handler":
+            msg = [a for a in inner(s)[1:]][-1]
+            while msg["kind"] in ("ImplicitCastExpr", "ParenExpr"):
+                msg = inner(msg)[0]
+            text = bytes(c_string_bytes(msg["value"])[:-1]).decode("ascii", "replace").replace('"', "'")
+            return [pad + 'throw (Fault.assertFail "%s")' % text]
         if kind == "SwitchStmt":
             return self.switch(fn, s, env, k, ind)
         # expression statements
@@ -674,7 +785,11 @@ class Translator:
                         (rhs["kind"] == "ParenExpr" or (rhs.get("castKind") == "IntegralCast" and strip_cv(qt(rhs)) == strip_cv(et))):
                     rhs = inner(rhs)[0]
                 l, v, env = self.expr(fn, rhs, env)
+                if env.pending is not None:
+                    raise Unsupported("output written while a block copy is pending")
                 sgn, b = int_type(et, self.enums)
+                if v.raw8 and b == 8:
+                    v = Val(v.raw8, 0, 255, atom=True)
                 # the stored unit is reported as the unsigned value of its bit pattern
                 if v.boolean or v.lo < 0 or v.hi >= (1 << b):
                     v = self.convert(v, {8: "unsigned char", 16: "char16_t", 32: "char32_t"}[b])
@@ -697,6 +812,14 @@ class Translator:
                 raise Unsupported("compound assignment to " + lhs["kind"])
             name = lhs["referencedDecl"]["name"]
             var = env.vars[name]
+            if var["kind"] == "out":
+                l, rv, env = self.expr(fn, rhs, env)
+                if s["opcode"] != "+=" or l or rv.lo != rv.hi or env.pending is None or len(env.pending) != rv.lo:
+                    raise Unsupported("output pointer moved other than over a block just copied")
+                no = fn.fresh("out"); env = env.copy()
+                line = "let %s := %s ++ [%s]" % (no, env.out, ", ".join(str(b) for b in env.pending))
+                env.out = no; env.pending = None
+                return [line], env
             if var["name"] is None:
                 raise Unsupported("read of uninitialised " + name)
             op = s["opcode"][:-1]
@@ -715,6 +838,20 @@ class Translator:
         if kind == "UnaryOperator" and s["opcode"] in ("++", "--"):
             l, _, env = self.incdec_value(fn, s, env)
             return l, env
+        if kind == "CallExpr" and callee_name(s) == "copy":
+            args = inner(s)[1:]
+            d, src, cnt = args
+            while d["kind"] in ("ImplicitCastExpr", "ParenExpr"):
+                d = inner(d)[0]
+            while src["kind"] in ("ImplicitCastExpr", "ParenExpr"):
+                src = inner(src)[0]
+            l, cv, env = self.expr(fn, cnt, env)
+            if not (d["kind"] == "DeclRefExpr" and env.vars.get(d["referencedDecl"]["name"], {}).get("kind") == "out"
+                    and src["kind"] == "DeclRefExpr" and src["referencedDecl"]["name"] in self.arrays and not l and cv.lo == cv.hi
+                    and cv.lo <= len(self.arrays[src["referencedDecl"]["name"]]) and env.pending is None):
+                raise Unsupported("char_traits::copy other than (output position, constant array, constant count)")
+            env = env.copy(); env.pending = self.arrays[src["referencedDecl"]["name"]][:cv.lo]
+            return [], env
         if kind == "CallExpr":
             l, _, env = self.call(fn, s, env)
             return l, env
@@ -792,7 +929,83 @@ class Translator:
         return env
 
     def loop(self, fn, s, env, k, ind):
-        raise Unsupported("loop")
+        """`while (c) body` / `for (init; c; inc) body`  ->  a recursive function over the fuel; the statements after the
+        loop become its exit branch, so an early `return` in the body is simply a result"""
+        pad = "  " * ind
+        parts = s.get("inner", [])
+        if s["kind"] == "WhileStmt":
+            parts = inner(s)
+            cond, body = parts[-2], parts[-1]; init = None; inc = None
+        else:
+            # clang: [init, condition variable, cond, inc, body]; absent parts are empty objects
+            raw = s["inner"]
+            init, _cv, cond, inc, body = raw
+            init = init if init.get("kind") else None
+            inc = inc if inc.get("kind") else None
+            if not cond.get("kind"):
+                raise Unsupported("for loop without a condition")
+        pre = []
+        if init is not None:
+            if init["kind"] == "DeclStmt":
+                for d in inner(init):
+                    l, env = self.vardecl(fn, d, env)
+                    pre += [pad + x for x in l]
+            else:
+                l, env = self.effect(fn, init, env)
+                pre += [pad + x for x in l]
+        if env.pending is not None:
+            raise Unsupported("loop entered while a block copy is pending")
+        fn.loops += 1; fn.needs_fuel = True
+        lname = "%s_loop%d" % (fn.name, fn.loops)
+        mod = assigned_vars(body, set()) | (assigned_vars(inc, set()) if inc is not None else set())
+        live = [(c, v) for c, v in env.vars.items() if v["kind"] != "out" and v["name"] is not None]
+        carried = [(c, v) for c, v in live if c in mod]
+        fixed = [(c, v) for c, v in live if c not in mod]
+        flags = [v["nullflag"] for c, v in env.vars.items() if v.get("nullflag")]
+        has_out = fn.has_out
+        # inside the loop function the carried variables have the full range of their types
+        lenv = env.copy()
+        for c, v in carried:
+            nv = lenv.vars[c]
+            if nv["kind"] == "int":
+                nv["lo"], nv["hi"] = type_range(nv["ctype"], self.enums)
+            else:
+                nv["lo"], nv["hi"] = 0, 1 << 62
+        for c, v in lenv.vars.items():      # a variable declared before the loop but first assigned inside it
+            if v["name"] is None and v["kind"] == "int" and c in mod:
+                raise Unsupported("variable first assigned inside a loop and used after it: " + c)
+        out0 = env.out
+        if has_out:
+            lenv.out = "out"
+        def ty(v):
+            return "Int" if v["isint"] else "Nat"
+        fixed_b = " ".join("(%s : %s)" % (v["name"], ty(v)) for c, v in fixed) + "".join(" (%s : Bool)" % f for f in flags)
+        carried_names = [v["name"] for c, v in carried] + (["out"] if has_out else [])
+        carried_tys = [ty(v) for c, v in carried] + (["List Nat"] if has_out else [])
+        def recur(e, i):
+            if e.pending is not None:
+                raise Unsupported("loop iteration ends while a block copy is pending")
+            args = [e.vars[c]["name"] for c, v in carried] + ([e.out] if has_out else [])
+            return ["  " * i + "%s %s%s fuel %s" % (lname, "mem " if True else "", " ".join([v["name"] for c, v in fixed] + flags), " ".join(args))]
+        def after_body(e, i):
+            if inc is None:
+                return recur(e, i)
+            l, e2 = self.effect(fn, inc, e)
+            return ["  " * i + x for x in l] + recur(e2, i)
+        fn.loopctx.append((after_body, lambda e, i: k(e, i)))
+        try:
+            body_lines = self.cond_tree(fn, cond, lenv, lambda e, i: self.stmt(fn, body, e, after_body, i), lambda e, i: k(e, i), 2)
+        finally:
+            fn.loopctx.pop()
+        sig = "def %s (mem : List Nat) %s : Nat → %s → M (%s)" % (lname, fixed_b, " → ".join(carried_tys) if carried_tys else "Unit", "%RTY%")
+        pats = ", ".join(carried_names) if carried_names else "_"
+        fn.aux += [sig,
+                   "  | 0, %s => throw Fault.fuel" % ", ".join("_" for _ in (carried_names or ["_"])),
+                   "  | fuel + 1, %s => do" % pats] + body_lines + [""]
+        args = [v["name"] for c, v in carried] + ([out0] if has_out else [])
+        if not carried_names:
+            args = ["()"]
+        return pre + [pad + "%s mem %s fuel %s" % (lname, " ".join([v["name"] for c, v in fixed] + flags), " ".join(args))]
     def switch(self, fn, s, env, k, ind):
         raise Unsupported("switch")
 
@@ -803,6 +1016,7 @@ class Translator:
             raise Unsupported("%d definitions of %s" % (len(cands), name))
         d = cands[0]
         fn = Fn(self, d)
+        fn.loops = 0; fn.needs_fuel = False; fn.loopctx = []
         env = Env()
         params = []; binders = []; fn.inouts = []; fn.has_out = False; uses_mem = False
         body = None
@@ -819,13 +1033,17 @@ class Translator:
                             fn.inouts.append(pn); params.append(dict(kind="srcref", isint=False))
                         else:
                             params.append(dict(kind="src", isint=False))
+                            if null_tested(d, pn, self.sigs):
+                                env.vars[pn]["nullflag"] = ln + "_null"
+                                binders.append("(%s_null : Bool)" % ln)
+                                params[-1]["nullflag"] = True
                     else:
-                        if not is_ref(t):
-                            raise Unsupported("non-const pointer parameter by value: " + pn)
+                        if fn.has_out:
+                            raise Unsupported("two output pointers")
                         fn.has_out = True
                         env.vars[pn] = dict(name=None, lo=0, hi=0, isint=False, kind="out", ctype=t)
                         env.out = "([] : List Nat)"
-                        params.append(dict(kind="out", isint=False))
+                        params.append(dict(kind="out", isint=False, ref=is_ref(t)))
                 else:
                     it = int_type(t, self.enums)
                     if it is None:
@@ -858,11 +1076,68 @@ class Translator:
         if fn.has_out:
             rtys.append("List Nat")
         rty = " × ".join(rtys) if rtys else "Unit"
-        head = "def %s %s%s: M (%s) := do" % (name, "(mem : List Nat) " if uses_mem else "", " ".join(binders) + (" " if binders else ""), rty)
-        self.sigs[name] = dict(mem=uses_mem, params=params, ret=fn.ret, out=fn.has_out)
+        uses_mem = uses_mem or fn.needs_fuel
+        head = "def %s %s%s%s: M (%s) := do" % (name, "(mem : List Nat) " if uses_mem else "", "(fuel : Nat) " if fn.needs_fuel else "",
+                                                  " ".join(binders) + (" " if binders else ""), rty)
+        fn.aux = [x.replace("%RTY%", rty) for x in fn.aux]
+        self.sigs[name] = dict(mem=uses_mem, params=params, ret=fn.ret, out=fn.has_out, fuel=fn.needs_fuel)
         loc = d.get("loc", {})
         src = "/-- `%s` (%s) -/" % (name, os.path.basename(loc.get("file", loc.get("includedFrom", {}).get("file", "")) or "") or "include/")
         return fn.aux + [src, head] + lines
+
+def null_tested(fdecl, pname, sigs={}):
+    def walk(n):
+        if n.get("kind") == "CallExpr" and callee_name(n) in sigs:
+            for a, prm in zip(inner(n)[1:], sigs[callee_name(n)]["params"]):
+                x = a
+                while x.get("kind") in ("ImplicitCastExpr", "ParenExpr"):
+                    x = inner(x)[0]
+                if prm.get("nullflag") and x.get("kind") == "DeclRefExpr" and x["referencedDecl"].get("name") == pname:
+                    return True
+        if n.get("kind") == "ImplicitCastExpr" and n.get("castKind") == "PointerToBoolean":
+            x = n
+            while x.get("kind") in ("ImplicitCastExpr", "ParenExpr"):
+                x = inner(x)[0]
+            if x.get("kind") == "DeclRefExpr" and x["referencedDecl"].get("name") == pname:
+                return True
+        return any(walk(c) for c in n.get("inner", []) if isinstance(c, dict))
+    return walk(fdecl)
+
+def callee_name(call):
+    c = inner(call)[0]
+    while c["kind"] in ("ImplicitCastExpr", "ParenExpr"):
+        c = inner(c)[0]
+    return c.get("referencedDecl", {}).get("name") if c["kind"] == "DeclRefExpr" else None
+
+def has_kind(n, kinds):
+    if n.get("kind") in kinds:
+        return True
+    return any(has_kind(c, kinds) for c in n.get("inner", []) if isinstance(c, dict))
+
+def assigned_vars(n, acc):
+    """names of the variables a statement may assign (assignment, compound assignment, ++/--, passed by reference)"""
+    k = n.get("kind")
+    def target(x):
+        while x.get("kind") in ("ParenExpr", "ImplicitCastExpr"):
+            x = inner(x)[0]
+        if x.get("kind") == "DeclRefExpr":
+            acc.add(x["referencedDecl"].get("name"))
+        elif x.get("kind") == "UnaryOperator":
+            target(inner(x)[0])
+    if k in ("BinaryOperator",) and n.get("opcode") == "=":
+        target(inner(n)[0])
+    if k == "CompoundAssignOperator":
+        target(inner(n)[0])
+    if k == "UnaryOperator" and n.get("opcode") in ("++", "--"):
+        target(inner(n)[0])
+    if k == "CallExpr":
+        for a in inner(n)[1:]:
+            if a.get("kind") == "DeclRefExpr":      # an lvalue argument: bound to a reference parameter
+                acc.add(a["referencedDecl"].get("name"))
+    for c in n.get("inner", []):
+        if isinstance(c, dict):
+            assigned_vars(c, acc)
+    return acc
 
 LEAN_KEYWORDS = {"end", "from", "at", "in", "do", "then", "else", "if", "let", "have", "show", "fun", "match", "with", "def",
                  "open", "local", "prefix", "infix", "notation", "where", "by", "calc", "mem", "rd8", "rd16", "rd32", "out"}
@@ -883,7 +1158,10 @@ def main():
         tr = Translator(objs)
         out = [HEADER]
         for name in KERNELS:
-            out += tr.function(name)
+            try:
+                out += tr.function(name)
+            except Unsupported as e:
+                raise Unsupported("%s: %s" % (name, e))
             out.append("")
         out.append("end StVerif.Generated.Kernels")
         text = "\n".join(out) + "\n"
